@@ -106,8 +106,8 @@ PROPS = {
     },
     "C08": {
         "n_quick": 1500, "n_thorough": 37500,
-        "technique": 'Coq model of AddRoute + declarative validity predicate + correspondence on accept/reject',
-        "level_text": "proof (partial): C08_non_final_optional_rejected / C08_empty_route_rejected; the full 'accepted iff valid' is stated (RouteSpec.valid) and checked by correspondence on every registration, not yet proved",
+        "technique": 'Coq proof (acceptance characterised on the tree: both directions, by induction over AddRoute and by the uniqueness/no-clash invariants of key-carrying paths) + declarative validity predicate + correspondence on accept/reject',
+        "level_text": "proof: C08_accept_iff - on every tree registration can have built, a route is accepted iff every segment classifies in the context of its own earlier segments (expressions compile, no bind reused, no inner empty segment, no second match-all before the end), no non-final segment is optional, and none of its forms has the segment texts of a registered path or a different match-all where a registered path has one in the same role; C08_invariants_preserved (wfo, live, exact key paths added), C08_accepted_reachable (whatever a form of an accepted route admits is dispatched); the same conditions stated on the list of routes (RouteSpec.valid) judge the implementation's accept/reject on every generated registration",
         "level_note": 'trusts Coq kernel, extraction, glue; regexp.Compile is an oracle (compile : src -> option re) supplied per case',
         "rule": 'random registration/Headers/request histories: 1-7 registrations from a collision-rich segment pool (statics incl. regex metacharacters, placeholders, regex segments with several binds / inner groups / random regex ASTs, match-all with capture 1|2|-1|3x, optional last segment, trailing slash), methods GET/other/Any/lower-case, ~8% ill-formed registrations; requests = instances of registered routes (regex parts sampled from the AST), perturbed instances, random segment strings; a third of the registrations ill-formed (each rejection cause), unknown methods. After a rejected registration the run continues on an instance rebuilt from the accepted operations (AddRoute is not atomic, F11). Non-trivial: a registration the validity spec rejects.',
         "what": 'accept/reject of every registration vs model and vs the declarative predicate RouteSpec.valid on the list of accepted routes',
